@@ -25,9 +25,11 @@ let res_str = function Some Success -> "ok" | Some Failed -> "failed" | Some Fai
 let run () = iter_lines (fun line ->
   let rest = String.sub line 2 (String.length line - 2) in
   match split_on '|' rest with
-  | [docs_s; ct; ex; json; entries; marks; leftover; late] ->
+  | [docs_s; ct; ex; json; entries; marks; leftover; late; compat_s] ->
+    let compat = (compat_s = "compat=1") in
     let docs = List.mapi parse_doc (split_on ';' docs_s) in
     let cli_timeout = (let v = D_config.field ct in if v = "-" then None else Some (1000 * int_of_string v)) in
+    let cli_unlimited = (cli_timeout = Some 0) in   (* --timeout-seconds 0: no limit, whatever the documents say *)
     let mains = List.filter (fun d -> d.role = 'm') docs in
     let pres = List.filter (fun d -> d.role = 'p') docs and apps = List.filter (fun d -> d.role = 'a') docs in
     let with_ids d = List.mapi (fun i t -> (d, i, t)) d.tests in
@@ -38,6 +40,7 @@ let run () = iter_lines (fun line ->
       let tcs = List.map (fun ((_, _, t) as x) ->
           { expected = (if t.kind = 'E' then Some (z_of_int t.code) else None); t_skip = z_of_int (skip_of x);
             per_timeout = (if t.kind = 'T' then Some (n_of_int 400) else None); empty_ok = true }) all in
+      let script_mode = m.cram || compat in   (* one script per document: Cram files, and every document under --cram-compat *)
       let total_ms = (match cli_timeout with Some t -> t | None -> (match m.total with Some t -> t | None -> int_of_n default_document_timeout_ms)) in
       (* time that has certainly passed before each test case starts: one second for every `wait: 1s` so far (this one included) *)
       let elapsed = (let rec f acc = function [] -> [] | (_, _, t) :: r -> let acc' = (if t.kind = 'w' then acc + 1000 else acc) in acc' :: f acc' r in
@@ -45,14 +48,17 @@ let run () = iter_lines (fun line ->
       let rs = List.map2 (fun ((_, _, t) as x) el ->
           let st = (if (not m.cram) && total_ms > 0 && el >= total_ms then TimedOut else match t.kind with
               | 'P' | 'O' | 'w' -> Code Z0 | 'C' | 'E' -> Code (z_of_int t.code) | 'S' -> Code (z_of_int (if m.cram then 80 else skip_of x))
-              | 'Q' -> if m.cram then ESkipped else Code (z_of_int (skip_of x))
+              | 'Q' -> if script_mode then ESkipped else Code (z_of_int (skip_of x))
+              | 'G' when cli_unlimited -> Code Z0
               | 'T' | 'G' -> TimedOut | 'D' -> EDetached | 'K' -> Unknown | 'X' -> Code (z_of_int 3) | _ -> failwith "kind") in
           { status = st; out_ok = (t.kind <> 'O') }) all elapsed in
-      let total = (match cli_timeout with Some t -> Some (n_of_int t) | None ->
+      let total = (match cli_timeout with Some 0 -> None | Some t -> Some (n_of_int t) | None ->
                      (match m.total with Some t -> Some (n_of_int t) | None -> Some default_document_timeout_ms)) in
       (* Cram: the first test case that leaves the script early with a plain `exit 3` *)
       let early = (let rec f i = function [] -> None | (_, _, t) :: r -> if t.kind = 'X' then Some (nat_of_int i) else f (i + 1) r in f 0 all) in
-      let e = if m.cram then exec_script2 default_skip_document_code rs early
+      (* the skip code of the one script: 80 for a Cram file; under --cram-compat what the test cases carry (the same on all of them) *)
+      let script_skip = (if m.cram then default_skip_document_code else (match all with x :: _ -> z_of_int (skip_of x) | [] -> default_skip_document_code)) in
+      let e = if script_mode then exec_script2 script_skip rs early
               else exec_timed tcs rs total (List.map n_of_int elapsed) in
       (m, all, tcs, rs, e)) mains in
     let model_docs = List.map (fun (_, _, tcs, _, e) -> (tcs, e)) plan in
@@ -68,7 +74,7 @@ let run () = iter_lines (fun line ->
       | [] -> []
       | (m, all, _, rs, e) :: rest ->
         let reached =
-          if m.cram then (let rec f i = function [] -> i | ((_, _, t), (r : rstep)) :: rest -> (match r.status with Unknown | TimedOut | ESkipped -> i + 1 | _ -> if t.kind = 'X' then i + 1 else f (i + 1) rest) in f 0 (List.combine all rs))
+          if m.cram || compat then (let rec f i = function [] -> i | ((_, _, t), (r : rstep)) :: rest -> (match r.status with Unknown | TimedOut | ESkipped -> i + 1 | _ -> if t.kind = 'X' then i + 1 else f (i + 1) rest) in f 0 (List.combine all rs))
           else (match e with
               | ExOk _ -> (let rec f i = function [] -> i | (r : rstep) :: t -> (match r.status with Unknown -> i + 1 | _ -> f (i + 1) t) in f 0 rs)
               | ExSkipped i | ExFailed i -> int_of_nat i + 1
@@ -99,7 +105,14 @@ let run () = iter_lines (fun line ->
     if strip imarks <> strip exp_marks then report "DIFF:marks" ("model=" ^ String.concat "," exp_marks) line;
     if json <> "json=1" then report "SPEC:C19" "json renderer output is not well-formed JSON" line;
     if leftover <> "leftover=0" then report "SPEC:C18" ("directories left in TMPDIR after the run: " ^ leftover) line;
-    if late <> "late=-" then report "SPEC:C14" ("a command that ran into its limit was not aborted, it went on running after scrut had reported the timeout: " ^ late) line;
+    (* with --timeout-seconds 0 the slow command is not limited at all and finishes: its late line is then expected *)
+    if late <> "late=-" && not cli_unlimited then report "SPEC:C14" ("a command that ran into its limit was not aborted, it went on running after scrut had reported the timeout: " ^ late) line;
+    if cli_unlimited then bump "cli:timeout-seconds-0"; if compat then bump "cli:cram-compat";
+    (* C16: the command line is the top layer: with --timeout-seconds 0 no limit of a lower layer may cut a test case short *)
+    if cli_unlimited && List.exists (fun e -> (match String.rindex_opt e '=' with Some i -> String.sub e (i + 1) (String.length e - i - 1) = "timeout" | None -> false))
+                          (if entries = "-" then [] else split_on ',' entries) then
+      report "SPEC:C16" "--timeout-seconds 0 (no limit) was given on the command line and yet a test case timed out on the limit of the document" line;
+    if cli_unlimited && late = "late=-" then report "SPEC:C16" "--timeout-seconds 0 (no limit) was given and yet the slow command did not run to its end" line;
     if has 'T' || has 'G' then bump "waited-for-late-effects";
     (* ---- oracles on what the implementation reported ---- *)
     let kind_of e = (match String.rindex_opt e '=' with Some i -> String.sub e (i + 1) (String.length e - i - 1) | None -> "?") in
